@@ -52,7 +52,15 @@ def _pattern_ops(rng, ctx):
     def rec(eid, q):
         return {'k': 'raw', 'id': eid, 'q': q, 'a': [rng.randrange(0, 4) for _ in range(4)]}
     a, b = code(), code()
-    kind = rng.pick(['stray', 'reopen', 'cross', 'nest', 'startonly', 'all', 'strayinside', 'samename', 'crossdec', 'dup', 'dup'])
+    kind = rng.pick(['stray', 'reopen', 'cross', 'nest', 'startonly', 'all', 'strayinside', 'samename', 'crossdec', 'dup', 'dup', 'stray2', 'samestring'])
+    if kind == 'stray2':
+        # two ENDs of a code that was never started, with other records of the thread between them
+        return [rec(a, 2), rec(b, rng.pick([0, 3, 1])), rec(a, 2)]
+    if kind == 'samestring':
+        # the same global string (same id, same text) announced twice: two announcements, two traces
+        g = worlds.op_gstr(rng, ctx.new_string_id(), length=rng.pick([5, 16, 17, 40]))
+        mid = [rec(b, rng.pick([0, 3]))] if rng.chance(0.5) else []
+        return [g] + mid + [dict(g)]
     if kind == 'dup':
         # the same record twice, equal in every field (under tied timestamps even the timestamp): still two events
         r1 = rec(b, rng.pick([1, 0, 3, 1]))
